@@ -41,7 +41,7 @@ func (r *faultReader) fault() error {
 
 // faultErrors: what a failing stream may report. Anything but io.EOF is a fault, also the errors that the io package
 // itself uses for other purposes.
-var faultErrors = []error{errInjected, io.ErrUnexpectedEOF, io.ErrClosedPipe, io.ErrNoProgress}
+var faultErrors = []error{errInjected, io.ErrUnexpectedEOF, io.ErrClosedPipe, io.ErrNoProgress, fmt.Errorf("read tcp 10.0.0.1:80: connection lost: %w", io.EOF)}
 
 func (r *faultReader) Read(p []byte) (int, error) {
 	if r.pos >= r.k {
@@ -264,6 +264,19 @@ func TestC18(t *testing.T) {
 					// only documents the reader accepts: the property is about faults, not about invalid input
 					if _, err := readFormat(format, bytes.NewReader(d), readOpts{}); err == nil {
 						docs = append(docs, d)
+					}
+				}
+			}
+			if format == "ts" {
+				// a stream with private-data packets of another PID between the teletext packets
+				for i := 1; i < 100; i++ {
+					st := rapid.Custom(genTTXStream).Example(2000 + i)
+					if len(st.Instances) >= 2 {
+						st.PrivateData, st.SecondTTXPID, st.OtherPIDFirst = true, false, false
+						if b, _ := st.render(); len(b) <= 6000 {
+							docs = append(docs, b)
+							break
+						}
 					}
 				}
 			}
